@@ -44,7 +44,7 @@ MayCloseAnyway(rs, q, p) == (q.blen > 0 /\ p.read # "all") \/ rs.signalled \/ q.
 (* to do: every dispatched request answered and every byte sent so far belonging to them.  A request that starts at or    *)
 (* beyond that offset arrived when the connection should already have been shut down; the known deviation (requests that  *)
 (* are already received or queued are still served after a closing response) does not cover it.                          *)
-QuietAfterClose(rs) == /\ rs.final /\ rs.called = rs.answered /\ rs.cur.k = 0 /\ rs.called >= 1 /\ rs.called <= NReq(rs)
+QuietAfterClose(rs) == /\ rs.final /\ rs.called = rs.answered /\ rs.cur.k = 0 /\ rs.called >= 1 /\ rs.called <= NReq(rs) /\ ~rs.anyCut
                        /\ rs.fed = rs.gt[rs.called].end
 ArrivedLater(rs, i) == rs.closeFed >= 0 /\ i >= 1 /\ i <= NReq(rs) /\ rs.gt[i].start >= rs.closeFed
 AfterFinalSig(rs, what, i) == "C03/" \o what \o "/after-final/" \o rs.finalWhy \o (IF ArrivedLater(rs, i) THEN "/arrived-later" ELSE "")
@@ -249,12 +249,13 @@ OnDone(rs, e) ==
   E({"C06"}, ~ShutLate(rs, e.t),
   E({"C06"}, ~(Idle(rs) /\ rs.cfg.ka_ms > 0 /\ e.res = "ok" /\ e.t - rs.tAct + LAG < rs.cfg.ka_ms),
   E({"C04"}, e.res = "ok" \/ ErrEndJustified(rs, e),
-   LET allAnswered == rs.called <= rs.answered + (IF rs.cur.k # 0 THEN 1 ELSE 0) \/ Faulted(rs) \/ e.res = "err"
+   \* (what happens to a request that was dispatched after a closing response is part of that recorded C03 deviation)
+   LET allAnswered == rs.called <= rs.answered + (IF rs.cur.k # 0 THEN 1 ELSE 0) \/ Faulted(rs) \/ e.res = "err" \/ rs.final
        sig == IF ChunkDrop(rs) THEN "C02/Done/unanswered-because-dropped-on-malformed-chunk" ELSE "C02/Done/dispatched-request-never-answered" IN
    E({"C02"}, allAnswered,
     \* C04 (exactly-once delivery) reads the same observation, unless the response stream could not be attributed any more
     \* (octets after a bodiless response) or a closing response had already ended it
-    E({"C04"}, allAnswered \/ rs.anyCut \/ rs.final, s, sig),
+    E({"C04"}, allAnswered \/ rs.anyCut, s, sig),
     sig),
    "C04/Done/error-end-without-cause/" \o e.kind),
    "C06/KeepAlive/closed-before-timeout"),
